@@ -113,6 +113,8 @@ pub enum Expr {
    ProdFst(Box<Expr>),
    /// `e as ty` between numeric types
    Cast(Box<Expr>, Ty),
+   /// `{ let var = init; body }`: a block whose `let` shadows `var` (owned inside the block) and reads it in its own initialiser
+   LetBlock(String, Box<Expr>, Box<Expr>),
    Cmp(CmpOp, Box<Expr>, Box<Expr>),
    And(Box<Expr>, Box<Expr>),
    Or(Box<Expr>, Box<Expr>),
